@@ -119,6 +119,10 @@ def gen_op(rng, w):
     if kind in ("genotype", "debug"):
         op["gene"] = rng.choice(genes + ([failing] if kind == "genotype" and rng.random() < 0.1 else []))
         op["out"] = rng.choice(OUT_KINDS)
+        if kind == "genotype" and rng.random() < 0.15:
+            # database indels counted from the CIGARs (equivalent placements) instead of realigned: another
+            # way through the reader, which must leave nothing behind for the samples loaded afterwards
+            op["indelpost_off"] = True
         if kind == "genotype" and rng.random() < (0.5 if w["world"].get("exome_ok") else 0.12):
             # exome route: copy-number calling off, shipped illumina profile (which does not know the
             # generated gene -> reported error); it must leave nothing behind for later operations
@@ -781,7 +785,8 @@ def _op(ctx, op):
         try:
             rec = O.run_genotype(db, os.path.join(wd, man["samples"][op["sample"]]), prof, outp,
                                  cn_region=cnr, genome=seg["build"] if seg["build"] != "hg19" else None,
-                                 debug=dbg, params=seg["params"])
+                                 debug=dbg, params=dict(seg["params"], indelpost=False) if op.get("indelpost_off")
+                                 else seg["params"])
         finally:
             SIM.stage_hook = None
         rec.pop("_raw", None)
